@@ -18,7 +18,21 @@
 #endif
 #define LLEN(i) (VK_LL - ((VK_SHORTMASK >> (i)) & 1))
 
-static char store[VK_LINES][VK_LL + 1];
+#ifdef VK_TPL
+/* template mode: a small well-formed MSF (VK_TPL 2) or Clustal (VK_TPL 3) file in which line VK_HOLE is replaced by
+ * VK_LL arbitrary bytes - malformed input in the middle of otherwise structured text (every other line is concrete,
+ * so the readers' strstr / strnlen searches stay concrete except on the damaged line) */
+#if VK_TPL == 2
+static const char *const tpl[VK_LINES] = {"!!AA_MULTIPLE_ALIGNMENT 1.0", "", " x  MSF: 4  Type: P  D  Check: 1  ..", "",
+        " Name: a  Len: 4  Check: 1  Weight: 1.00", " Name: bb  Len: 4  Check: 1  Weight: 1.00", "", "//", "", "a   AC-E", "bb  A-DE", ""};
+#else
+static const char *const tpl[VK_LINES] = {"CLUSTAL W (1.8) multiple sequence alignment", "", "", "a    AC-E", "bb   A-DE", "", "a    G", "bb   -", ""};
+#endif
+#define VK_STORE_W (VK_LL > 48 ? VK_LL : 48)
+#else
+#define VK_STORE_W VK_LL
+#endif
+static char store[VK_LINES][VK_STORE_W + 1];
 static struct in_line in_lines[VK_LINES + 2];
 static struct in_line *in_ptrs[VK_LINES + 2];
 static struct in_buffer inb;
@@ -40,6 +54,15 @@ VK_MAIN()
         VK_INIT();
         int vb = 0;
         for (int i = 0; i < VK_LINES; i++) {
+#ifdef VK_TPL
+                if (i != VK_HOLE) {
+                        int n = 0;
+                        for (int k = 0; k < 48; k++) if (tpl[i][n]) { store[i][n] = tpl[i][n]; n++; }
+                        store[i][n] = 0;
+                        in_lines[i].line = store[i]; in_lines[i].len = n; in_ptrs[i] = &in_lines[i];
+                        continue;
+                }
+#endif
                 for (int k = 0; k < VK_LL; k++) {
                         unsigned char c = vin.b[vb++];
                         VK_ASSUME(c >= 32 && c != 127);      /* no control characters inside a line */
